@@ -146,14 +146,30 @@ def run_case(ctx, name, params):
         Pm = params_for(bxs)
         cls_ = {"lhs": operators.LHSGenerator, "halton": operators.HaltonGenerator, "uniform": operators.UniformGenerator,
                 "random": operators.RandomGenerator}[g]
+        # "minimal" histories: between two uses exactly one thing changes (one bound, or only N), everything else stays as it
+        # was; the changed bound moves between values that Python hashes alike (-1 and -2, as int or float) or that compare
+        # equal without being the same (0.0 / -0.0 / 0): whatever a generator remembers about its inputs, it must notice
+        minimal = r.random() < 0.35
+        if minimal:
+            Pm = params_for([[r.choice([-1, -2, -1.0, -2.0]), r.choice([5, 3.5, 0.0, 1, 0])] for _ in range(n)])
+            ctx.count("regenerate_minimal_change_histories")
         o = cls_(Pm)
         vrng.install(vrng.SeededRandom(params["seed"]))
         vrng.install_numpy(params["seed"] % (2 ** 31))
         try:
-            for round_ in range(3):
-                N = r.randint(2, 4) if g == "uniform" else r.randint(1, 40)
+            N = None
+            for round_ in range(5 if minimal else 3):
+                if not minimal or N is None or r.random() < 0.25:
+                    N = r.randint(2, 4) if g == "uniform" else r.randint(1, 40)
+                    changed_n = True
+                else:
+                    changed_n = False
                 o.init(N)
-                if round_:
+                if round_ and minimal and not changed_n:
+                    q = r.choice(Pm)
+                    lb = q["bounds"][0]
+                    q["bounds"][0] = {-1: -2, -2: -1}[int(lb)] if r.random() < 0.7 else float({-1: -2, -2: -1}[int(lb)])
+                elif round_ and not minimal:
                     for q in Pm:
                         lb, ub = q["bounds"]
                         w = ub - lb
